@@ -42,11 +42,13 @@ err_t beltKWPWrap(octet dest[], const octet src[], size_t count,
 		return ERR_OUTOFMEMORY;
 	// установить защиту
 	beltKWPStart(state, key, len);
-	memMove(dest, src, count);
 	if (header)
 		memJoin(dest, src, count, header, 16);
 	else
+	{
+		memMove(dest, src, count);
 		memSetZero(dest + count, 16);
+	}
 	beltKWPStepE(dest, count + 16, state);
 	// завершить
 	blobClose(state);
